@@ -45,6 +45,11 @@ type C09Case struct {
 	Depth   int             `json:"depth,omitempty"`
 	Data    json.RawMessage `json:"data,omitempty"` // nested arrays for TensorOf
 	K       []int           `json:"k,omitempty"`    // component configuration choices
+	// Again: the call is made a second time on the same receiver with the same argument slice
+	// objects after the caller changed one entry in place (Again = 1 + position, AgainBy = delta);
+	// the second call is judged by the specification of the changed arguments
+	Again   int `json:"again,omitempty"`
+	AgainBy int `json:"again_by,omitempty"`
 }
 
 func init() { register("C09/total", checkC09) }
@@ -385,6 +390,19 @@ func addEntry(e c09Entry) { c09Entries = append(c09Entries, e) }
 func hInt(t *rapid.T, label string) int { return rapid.IntRange(-2, 6).Draw(t, label) }
 
 func drawRecv(t *rapid.T) []int {
+	if rapid.IntRange(0, 11).Draw(t, "longrecv") == 0 {
+		long := rapid.SampledFrom([]int{17, 32, 33, 40, 64}).Draw(t, "long")
+		switch rapid.IntRange(0, 3).Draw(t, "longform") {
+		case 0:
+			return []int{long}
+		case 1:
+			return []int{2, long}
+		case 2:
+			return []int{long, 3}
+		default:
+			return []int{2, 1, long}
+		}
+	}
 	rank := rapid.IntRange(0, 5).Draw(t, "recvrank")
 	s := make([]int, rank)
 	n := 1
@@ -1367,7 +1385,106 @@ func genC09(t *rapid.T) C09Case {
 	e := c09Entries[k]
 	c := C09Case{Entry: e.name}
 	e.gen(t, &c)
+	if _, ok := againCalls[c.Entry]; ok && rapid.IntRange(0, 2).Draw(t, "again") == 0 {
+		n := len(c.Dims) + len(c.Idx)*2
+		if n > 0 {
+			c.Again = 1 + rapid.IntRange(0, n-1).Draw(t, "againpos")
+			c.AgainBy = rapid.SampledFrom([]int{-1, 1, 1, 2}).Draw(t, "againby")
+		}
+	}
 	return c
+}
+
+// againCalls: entry points that take a caller-owned dims or index slice; in "again" mode the
+// same receiver and the same slice objects serve two calls, the caller changing one entry in
+// place in between.
+var againCalls = map[string]func(x tensor.Tensor, c C09Case, dims []int, idx []tensor.Range, other tensor.Tensor) outcome{
+	"Tensor.Broadcast": func(x tensor.Tensor, c C09Case, dims []int, idx []tensor.Range, o tensor.Tensor) outcome {
+		return tOut(x.Broadcast(dims))
+	},
+	"Tensor.Reshape": func(x tensor.Tensor, c C09Case, dims []int, idx []tensor.Range, o tensor.Tensor) outcome {
+		return tOut(x.Reshape(dims))
+	},
+	"Tensor.Slice": func(x tensor.Tensor, c C09Case, dims []int, idx []tensor.Range, o tensor.Tensor) outcome {
+		return tOut(x.Slice(idx))
+	},
+	"Tensor.Patch": func(x tensor.Tensor, c C09Case, dims []int, idx []tensor.Range, o tensor.Tensor) outcome {
+		return tOut(x.Patch(idx, o))
+	},
+	"tensor.Full": func(x tensor.Tensor, c C09Case, dims []int, idx []tensor.Range, o tensor.Tensor) outcome {
+		return tOut(tensor.Full(dims, c.f(0), c.conf()))
+	},
+	"tensor.Zeros": func(x tensor.Tensor, c C09Case, dims []int, idx []tensor.Range, o tensor.Tensor) outcome {
+		return tOut(tensor.Zeros(dims, c.conf()))
+	},
+	"tensor.Ones": func(x tensor.Tensor, c C09Case, dims []int, idx []tensor.Range, o tensor.Tensor) outcome {
+		return tOut(tensor.Ones(dims, c.conf()))
+	},
+}
+
+// checkC09Again runs the two-call mode.
+func checkC09Again(c C09Case, e *c09Entry) *Failure {
+	call := againCalls[c.Entry]
+	var x, other tensor.Tensor
+	if c.Recv != nil || len(c.Entry) > 7 && c.Entry[:7] == "Tensor." {
+		x = recvOf(c)
+	}
+	if c.Entry == "Tensor.Patch" {
+		other = c.t(0).build()
+	}
+	dims, idx := c.dims(), c.idx()
+	c2 := c
+	c2.Again = 0
+	c2.Dims = append([]int{}, c.Dims...)
+	c2.Idx = append([]ref.Range{}, c.Idx...)
+	pos := c.Again - 1
+	switch {
+	case pos < len(c.Dims):
+		if dims == nil {
+			return nil
+		}
+		c2.Dims[pos] += c.AgainBy
+	case pos < len(c.Dims)+2*len(c.Idx):
+		if idx == nil {
+			return nil
+		}
+		q := pos - len(c.Dims)
+		if q%2 == 0 {
+			c2.Idx[q/2].From += c.AgainBy
+		} else {
+			c2.Idx[q/2].To += c.AgainBy
+		}
+	default:
+		return nil
+	}
+	if !wellFormed(c2) {
+		return nil
+	}
+	for round, cc := range []C09Case{c, c2} {
+		if round == 1 {
+			// the caller changes its own slice in place and calls again
+			copy(dims, c2.Dims)
+			for i := range idx {
+				idx[i] = tensor.Range{From: c2.Idx[i].From, To: c2.Idx[i].To}
+			}
+		}
+		exp := e.spec(cc)
+		o, p, hung := guardedCall(func() outcome { return call(x, cc, dims, idx, other) })
+		if hung {
+			return failf("%s: %v", c.Entry, errHang)
+		}
+		if p != nil {
+			return failf("%s (call %d of 2 with the same argument slices) panicked: %v", c.Entry, round+1, p)
+		}
+		if f := judgeC09(cc, exp, o, fmt.Sprintf(" (call %d of 2 on the same receiver with the same argument slice objects)", round+1)); f != nil {
+			return f
+		}
+	}
+	evid.Eval()
+	evid.Class("C09.entry=" + c.Entry)
+	evid.Class("C09.two_calls_same_slices")
+	evid.NonTrivial(c)
+	return nil
 }
 
 func wellFormed(c C09Case) bool {
@@ -1399,6 +1516,12 @@ func checkC09(c C09Case) *Failure {
 	if e == nil || !wellFormed(c) {
 		return nil
 	}
+	if c.Again > 0 {
+		if _, ok := againCalls[c.Entry]; !ok {
+			return nil
+		}
+		return checkC09Again(c, e)
+	}
 	exp := e.spec(c)
 	o, p, hung := guardedCall(func() outcome { return e.call(c) })
 	if hung {
@@ -1413,13 +1536,33 @@ func checkC09(c C09Case) *Failure {
 	if len(o.note) >= 3 && o.note[:3] == "BAD" {
 		return failf("%s: %s", c.Entry, o.note[4:])
 	}
+	if f := judgeC09(c, exp, o, ""); f != nil {
+		return f
+	}
+	gotErr := o.err != nil
+	evid.Eval()
+	evid.Class("C09.entry=" + c.Entry)
+	if gotErr {
+		evid.Class("C09.rejected")
+	} else {
+		evid.Class("C09.accepted")
+	}
+	if c09NearBoundary(c, exp) {
+		evid.Class("C09.near_boundary")
+		evid.NonTrivial(c)
+	}
+	return nil
+}
+
+// judgeC09 compares one outcome with the specification.
+func judgeC09(c C09Case, exp expect, o outcome, ctx string) *Failure {
 	gotErr := o.err != nil
 	if o.hasErr {
 		if !exp.unspecified && gotErr == exp.valid {
 			if gotErr {
-				return failf("%s returned an error although the documented precondition holds: %v", c.Entry, o.err)
+				return failf("%s%s returned an error although the documented precondition holds: %v", c.Entry, ctx, o.err)
 			}
-			return failf("%s returned no error although the documented precondition is violated", c.Entry)
+			return failf("%s%s returned no error although the documented precondition is violated", c.Entry, ctx)
 		}
 		if gotErr {
 			if o.isTensor && o.tensor != nil {
@@ -1449,17 +1592,6 @@ func checkC09(c C09Case) *Failure {
 				return failf("%s: NElems %d for shape %v", c.Entry, o.tensor.NElems(), exp.shape)
 			}
 		}
-	}
-	evid.Eval()
-	evid.Class("C09.entry=" + c.Entry)
-	if gotErr {
-		evid.Class("C09.rejected")
-	} else {
-		evid.Class("C09.accepted")
-	}
-	if c09NearBoundary(c, exp) {
-		evid.Class("C09.near_boundary")
-		evid.NonTrivial(c)
 	}
 	return nil
 }
